@@ -29,6 +29,9 @@ def universes(tier):
         "A2": (("q0", "q1"), space.universe(("q0", "q1"), 2, 2, [1, -1, 2, -3]), "i8"),
         "A3": (("q0", "q2", "q10"), space.universe(("q0", "q2", "q10"), 2, 2, [1, -2]), "i8"),
         "F2": (("q0", "q1"), space.universe(("q0", "q1"), 2, 2, [0.5, -1.5]), "f8"),
+        "U8": (("q0", "q1"), space.universe(("q0", "q1"), 2, 2, [1, 200]), "u1"),
+        "I1": (("q0", "q1"), space.universe(("q0", "q1"), 1, 2, [100, -100, 3]), "i1"),
+        "U4": (("q0",), space.universe(("q0",), 3, 2, [1, 4000000000]), "u4"),
     }
     if tier == "thorough":
         u["B2"] = (("q0", "q1"), space.universe(("q0", "q1"), 2, 3, [1, -1, 2]), "i8")
@@ -63,7 +66,7 @@ META = {
             "implementation's own boolean matrices. distinct = ordered pair of distinct universe elements x configuration.",
     "bounds": lambda tier: {"universes": {k: len(v[1]) for k, v in universes(tier).items()}, "configs": 4,
                             "family_degree": 4 if tier == "quick" else 5},
-    "assumptions": ["NaN and complex coefficients excluded (numpy's own order on those is not the documented one)",
+    "assumptions": ["universes U8/I1/U4 carry uint8/int8/uint32 coefficients whose differences do not fit the coefficient dtype", "NaN and complex coefficients excluded (numpy's own order on those is not the documented one)",
                     "name order = numeric suffix order, last name most significant unless sort_reverse"],
 }
 
